@@ -26,6 +26,8 @@ var ids = []string{"id-1", "", "abc/123 +x", "ZXhhbXBsZQ", "x"}
 
 const undeclaredName = "zz_not_declared"
 
+var wrapKinds = []string{"wrapped", "wrapped2", "joined", "multiw", "joined-wrapped"}
+
 // replayMode: a replayed design runs its whole script, including the inputs the main
 // stream leaves to the witness stream.
 var replayMode bool
@@ -112,12 +114,18 @@ func script(rng *vh.RNG, d *dg.Design, s *dg.Service, m *dg.Method, it *built, w
 		out = append(out, scase{Class: "service_undeclared", ErrName: undeclaredName, Err: &rt.ErrSpec{Kind: "service", Name: undeclaredName,
 			Message: vh.Pick(rng, messages), ID: vh.Pick(rng, ids), Timeout: fv&1 != 0, Temporary: fv&2 != 0, Fault: fv&4 != 0}})
 	}
-	out = append(out, scase{Class: "service_undeclared_wrapped", ErrName: undeclaredName, Err: &rt.ErrSpec{Kind: "wrapped", Name: undeclaredName,
-		Message: "inner", ID: "w1", Temporary: true}})
+	// every wrapper tree the runtime can build (single %w, two levels, errors.Join, multi-%w,
+	// wrapped Join), around an undeclared and around a declared service error
+	for i, wk := range wrapKinds {
+		out = append(out, scase{Class: "service_undeclared_wrapped", ErrName: undeclaredName, Err: &rt.ErrSpec{Kind: wk, Name: undeclaredName,
+			Message: "inner", ID: "w1", Temporary: i%2 == 0, Timeout: i%3 == 0}})
+	}
 	if firstDefault != "" {
 		e := declared[firstDefault]
-		out = append(out, scase{Class: "wrapped_declared", ErrName: firstDefault, Err: &rt.ErrSpec{Kind: "wrapped", Name: firstDefault,
-			Message: "inner message \"q\"", ID: "w-id", Timeout: e.Def.Timeout, Temporary: e.Def.Temporary, Fault: e.Def.Fault}})
+		for _, wk := range wrapKinds {
+			out = append(out, scase{Class: "wrapped_declared", ErrName: firstDefault, Err: &rt.ErrSpec{Kind: wk, Name: firstDefault,
+				Message: "inner message \"q\"", ID: "w-id", Timeout: e.Def.Timeout, Temporary: e.Def.Temporary, Fault: e.Def.Fault}})
+		}
 	}
 	// a name declared by ANOTHER method of the service only
 	other, otherCustom := "", ""
